@@ -150,6 +150,27 @@ def run(ctx, desc):
                 p = bytes(rng.getrandbits(8) for _ in range(nbytes))
                 _try(var.decode_raw, p)
                 ctx.case((name, "decode-pattern", "random"))
+        # a variable that declares limits (EDS LowLimit / HighLimit): they are advisory for the codec - every value of the
+        # type still encodes to its bytes (the device decides what to do with it)
+        if dt in R.INTEGERS or dt in R.REALS:
+            lim = _var(dt)
+            if dt in R.INTEGERS:
+                lo, hi = R.int_range(dt)
+                lim.min, lim.max = (lo // 2 if lo < 0 else hi // 8), hi // 2
+                if rng.random() < 0.3:
+                    lim.min, lim.max = float(lim.min), float(lim.max)
+                probes = [lo, hi, lim.min - 1, lim.max + 1, int(lim.min), int(lim.max), 0, 1]
+            else:
+                lim.min, lim.max = rng.choice([(-10.5, 10.5), (0, 100), (-1e3, -1.0)])
+                probes = [-1e6, 1e6, 0.0, -0.0, 11.25, -11.25, 1e-30, float("inf"), float("-inf"), 100.5, -2000.0]
+            for v in probes:
+                enc, exc = _try(lim.encode_raw, v)
+                ctx.case((name, "encode-with-limits", "below" if v < lim.min else "above" if v > lim.max else "inside"), nontrivial=True)
+                if exc is None:
+                    dec, exc2 = _try(lim.decode_raw, enc)
+                    same = R.same_float(dec, struct.unpack("<f", struct.pack("<f", v))[0] if dt == R.REAL32 else v) if dt in R.REALS else dec == v
+                    if exc2 is None and not same:
+                        ctx.violation(f"roundtrip:{name}", f"with limits declared decode(encode({v!r})) = {dec!r}", {"type": name, "value": v})
         # wrong-length byte strings 0..9
         right = R.width(dt) // 8
         for n in range(0, 10):
